@@ -4,11 +4,12 @@ EXTENDS WorkTreeConfNames
 (***************************************************************************)
 (* Enumeration for the harness: one initial state per (element, setting)   *)
 (***************************************************************************)
-VARIABLES comp, cpr, acc, uns
+VARIABLES comp, cpr, acc, uns, chars, rank
 NamesInit == /\ comp \in Comps /\ cpr \in AllProts
              /\ acc = Accept(Chars[comp], cpr)
              /\ uns = Unsafe(Chars[comp], cpr)
-NamesNext == UNCHANGED <<comp, cpr, acc, uns>>
-NamesSpec == NamesInit /\ [][NamesNext]_<<comp, cpr, acc, uns>>
+             /\ chars = Chars[comp] /\ rank = Rank[comp]
+NamesNext == UNCHANGED <<comp, cpr, acc, uns, chars, rank>>
+NamesSpec == NamesInit /\ [][NamesNext]_<<comp, cpr, acc, uns, chars, rank>>
 NamesInv  == uns => ~acc
 =============================================================================
